@@ -160,6 +160,7 @@ type violation struct {
 	reason     string
 	replay     string
 	noInput    bool
+	replayed   bool
 }
 
 func selectSpecs(eng *Engine, pc *PropConfig) ([]*FuncSpec, error) {
@@ -262,6 +263,7 @@ func runProperty(root, repo string, pc *PropConfig, tier string, seed int, overl
 		ro.violations = append(ro.violations, violation{obligation: "solver-disagreement", reason: d, noInput: true})
 	}
 	findings := loadFindings(root)
+	var newSafety []string
 	seen := map[string]bool{}
 	assumed := map[string]bool{}
 	for _, fr := range ro.frs {
@@ -342,11 +344,27 @@ func runProperty(root, repo string, pc *PropConfig, tier string, seed int, overl
 					if !quiet {
 						ro.notes = append(ro.notes, fmt.Sprintf("NOTE undischarged-unclaimed-obligation %s (%s)", or.Name, or.Status))
 					}
+					// a run-time check that did not exist at baseline (the code changed) and that a solver refutes:
+					// a violation only if the model panics the real code when replayed
+					if !baselineMode && or.Status == "failed" && len(or.Model) > 0 && !knownUnclaimed[or.Name] && strings.Contains(or.Name, "#safe-") && !strings.Contains(or.Name, "/") {
+						newSafety = append(newSafety, or.Name)
+					}
 					if !labelledKind(or.Name) {
 						assumed["run-time check not proved, assumed (partial correctness): "+or.Name] = true
 					}
 				}
 			}
+		}
+	}
+	for _, name := range newSafety {
+		v := violation{obligation: name, reason: "new run-time check refuted (failed)", noInput: true}
+		eng.writeReplay(root, pc.ID, &v, ro.frs)
+		if !v.noInput {
+			v.replayed = true
+			ro.obligs++
+			ro.violations = append(ro.violations, v)
+		} else {
+			ro.notes = append(ro.notes, "NOTE new run-time check refuted by a solver but not reproduced on the real code: "+name)
 		}
 	}
 	// claimed obligations that were not regenerated
@@ -375,6 +393,9 @@ func runProperty(root, repo string, pc *PropConfig, tier string, seed int, overl
 	// replay of counterexamples
 	for i := range ro.violations {
 		v := &ro.violations[i]
+		if v.replayed {
+			continue
+		}
 		eng.writeReplay(root, pc.ID, v, ro.frs)
 	}
 	return ro
@@ -446,7 +467,7 @@ func checkMain(args []string) {
 						isF = true
 					}
 				}
-				if or.Status == "proved" && or.TimeS < 4 || isF {
+				if or.Status == "proved" && or.TimeS < 6 || isF {
 					names = append(names, or.Name)
 				} else {
 					unclaimed = append(unclaimed, or.Name)
